@@ -113,9 +113,21 @@ def gen_case(rng):
         if r < 0.4:   cfg['env_gpus'] = rng.choice([0, 1, 2, 4, 8])
         elif r < 0.6: cfg['env_gpu_ids'] = rng.choice([1, 2, 4])
         if rng.random() < 0.3 and cfg['env_gpus'] is not None: cfg['env_gpu_ids'] = rng.choice([1, 3])     # both set
-    return {'op': 'init', 'kind': kind, 'cfg': cfg, 'exec_vnode': exec_vnode,
-            'lines': [None if x is None else x if isinstance(x, str) else
-                      {'id': x, 'login': HOSTS[x][1], 'batch': HOSTS[x][2]} for x in raw],
+    # CCM: a node list file left by an earlier job next to the one of this job
+    stale = None
+    if kind == 'ccm' and rng.random() < 0.5:
+        others = [i for i in range(len(HOSTS)) if i not in VNODES and not (HOSTS[i][1] or HOSTS[i][2]) and i not in hosts]
+        if others:
+            sh = rng.sample(others, min(len(others), rng.randint(1, 3)))
+            stale = {'lines': [h for h in sh for _ in range(slots)], 'touched_later': rng.random() < 0.6}
+    lines_m = [None if x is None else x if isinstance(x, str) else
+               {'id': x, 'login': HOSTS[x][1], 'batch': HOSTS[x][2]} for x in raw]
+    extra = {}
+    if stale:
+        extra['ccm_files'] = [{'mtime': 1, 'lines': [{'id': h, 'login': False, 'batch': False} for h in stale['lines']]},
+                              {'mtime': 2, 'lines': lines_m}]
+    return {'op': 'init', 'kind': kind, 'cfg': cfg, 'exec_vnode': exec_vnode, 'stale': stale, **extra,
+            'lines': lines_m,
             'hosts': [{'id': h, 'login': HOSTS[h][1], 'batch': HOSTS[h][2]} for h in hosts],
             'env_cpus': env_cpus, 'detected': rng.choice([4, 8, 64]), 'reach': reach}
 
@@ -164,7 +176,16 @@ def run_real(rp, case, scratch):
             text += ('' if l is None else l if isinstance(l, str) else HOSTS[l['id']][0]) + '\n'
         nf = os.path.join(d, 'nodefile')
         open(nf, 'w').write(text)
-        open(os.path.join(d, 'home', '.crayccm', 'nodelist.1'), 'w').write(text)
+        cur = os.path.join(d, 'home', '.crayccm', 'nodelist.1')
+        open(cur, 'w').write(text)
+        os.utime(cur, (2000000000, 2000000000))
+        if case.get('stale'):
+            # written a day before this job's file; its metadata may change afterwards (chmod, rename, restore)
+            old = os.path.join(d, 'home', '.crayccm', 'nodelist.0')
+            open(old, 'w').write(''.join(HOSTS[h][0] + '\n' for h in case['stale']['lines']))
+            os.utime(old, (1999913600, 1999913600))
+            if case['stale']['touched_later']:
+                os.chmod(old, 0o640)
         for k in list(os.environ):
             if k.startswith(('SLURM_', 'PBS_', 'LSB_', 'COBALT_', 'RADICAL_SMT', 'GPU_DEVICE')):
                 del os.environ[k]
